@@ -42,7 +42,12 @@ pub fn compile_sources(
   let mut error_set = samlang_errors::ErrorSet::new();
   let mut parsed_sources = std::collections::HashMap::new();
   samlang_profiling::measure_time(enable_profiling, "Parsing", || {
-    for (module_reference, source) in &source_handles {
+    // In a fixed order: the order of parsing decides the order of interning, which is observable
+    // in the order of long names.
+    let mut module_references = source_handles.keys().copied().collect::<Vec<_>>();
+    module_references.sort();
+    for module_reference in &module_references {
+      let source = &source_handles[module_reference];
       let parsed = samlang_parser::parse_source_module_from_text(
         source,
         *module_reference,
